@@ -234,6 +234,7 @@ def run(repo='/repo', tier='quick'):
                   'the yield-at-end flag is set outside the refused-CONNECT arm', x['loc'])
     c16g(db, res)
     c16h(db, res)
+    c16j(db, res)
     c16i(db, res)
     res.assumptions.append('"no request byte skipped or parsed twice" is decided only as: the suspension/probe paths do not move the cursor; values are not tracked')
     if tier == 'thorough':
@@ -257,7 +258,18 @@ def c16g(db, res):
             if a and a[0].endswith('response_progress') and a[1] in ('<=', '>', '<', '>='):
                 L = a[2]
     if L is None:
-        raise AnalysisBroken('C16.g: the gate on response_progress in htp_connp_REQ_CONNECT_WAIT_RESPONSE was not found')
+        # the gate is there but keyed on something else: that is a violation, not a vanished anchor - the response side
+        # advances response_progress on every way a response can begin (status line, or a first line taken as body), which
+        # is what lets the suspended request side move again; no other field has that guarantee
+        dother = [(b, i, st) for b, i, st in (gate.returns() or []) if lit_name(P.ret_value(st)) == 'HTP_DATA_OTHER']
+        if not dother:
+            raise AnalysisBroken('C16.g: htp_connp_REQ_CONNECT_WAIT_RESPONSE no longer returns HTP_DATA_OTHER')
+        res.violated('C16.g', 'htp_connp_REQ_CONNECT_WAIT_RESPONSE:gate-reads-response_progress',
+                     'the CONNECT wait gate no longer compares response_progress with a phase (guards of its HTP_DATA_OTHER return: %s): response_progress is the one field the response side moves past LINE on every way an answer can begin - also when the first line is not a status line and is taken as body; a gate keyed on anything else can keep the request side suspended for ever (DATA_OTHER with nothing consumed on every call)'
+                     % [a for a, e in P.facts_at(gate, dother[0][0])], dother[0][2]['loc'])
+        L = 'HTP_RESPONSE_LINE'
+    else:
+        res.holds('C16.g', 'htp_connp_REQ_CONNECT_WAIT_RESPONSE:gate-reads-response_progress', 'the wait gate compares response_progress with %s' % L, gate.loc)
     # the status-line state: the out_state stored together with the first store of progress = L when a response starts
     start = db.get('htp_tx_state_response_start')
     line_states = {S(x['r']) for b, i, x in P.field_writes(start, 'out_state') if x['k'] == 'assign'
@@ -277,6 +289,34 @@ def c16g(db, res):
                       'response_progress = %s on every path through this store' % L,
                       'the response parser goes back to the status-line state without response_progress = %s: the gate (progress <= %s) in REQ_CONNECT_WAIT_RESPONSE is released by an interim response' % (L, L), x['loc'])
     res.floor('C16.g', 'stores of the status-line state into out_state', n, 2)
+
+
+def c16j(db, res):
+    """What follows a complete message in the same chunk decides what happens next (next message, stray body bytes, or - after a
+    2xx answer to CONNECT - tunnel payload that the request side has to classify first). Both FINALIZE states therefore look
+    at the stream before they wrap the transaction up: the completion call is reached only through the closed-stream edge or
+    after the look-ahead was taken."""
+    res.rule('C16.j', 'the FINALIZE states look before they complete: in htp_connp_REQ_FINALIZE / htp_connp_RES_FINALIZE every path from the entry to a completion call (htp_tx_state_*_complete*) passes the true edge of <status> == HTP_STREAM_CLOSED or a look-ahead (a store to *_next_byte)')
+    n = 0
+    for name, d in (('htp_connp_REQ_FINALIZE', 'in'), ('htp_connp_RES_FINALIZE', 'out')):
+        f = db.get(name)
+        comps = [(b, i, c) for b, i, c in f.calls() if (c.get('callee') or '').startswith('htp_tx_state_re') and '_complete' in (c.get('callee') or '')]
+        for b, i, c in comps:
+            n += 1
+            ok = True
+            witness = None
+            for atoms, events, end, seq in P.enum_paths_seq(f, (f.entry, -1), stop=lambda bb, ii, st: (bb, ii) == (b, i), max_paths=50000):
+                if not (end[0] == 'stop' or (end[0] == 'return' and tuple(end[1:3]) == (b, i))):
+                    continue
+                closed = any(a[0].endswith('%s_status' % d) and a[1] == '==' and a[2] in ('HTP_STREAM_CLOSED', '2') for a, e in atoms) or \
+                    any(a[0].endswith('%s_status' % d) and a[1] == '==' and 'CLOSED' in str(a[2]) for a, e in atoms)
+                peeked = any(x[0] == 'stmt' and P.assigns_field(x[3], '%s_next_byte' % d) for x in seq)
+                if not (closed or peeked):
+                    ok = False
+                    witness = [a for a, e in atoms][-3:]
+            res.check(ok, 'C16.j', '%s:%s:after-look-ahead' % (name, c.get('callee')), 'reached only on a closed stream or after the look-ahead',
+                      '%s completes the transaction on a path that has not looked at what follows in the chunk (guards: %s): bytes that follow the message in the same call - after a 2xx answer to CONNECT, the first tunnel bytes - are handed to the next state as if a new message began' % (name, witness), c['loc'])
+    res.floor('C16.j', 'completion calls in the FINALIZE states', n, 4)
 
 
 def c16h(db, res):
